@@ -98,8 +98,9 @@ def jExcept {α} (f : α → Json) : Except Err α → Json
 def jRaw (r : Except Err (List RawRec)) : Json := jExcept (jList (jList optCps)) r
 def jCastRead (r : Except Err (List (List Val))) : Json := jExcept (jList (jList jVal)) r
 
-/-- what the harness observes of one relation -/
-def obsRel (fields : Option (List Field)) (r : Rel) (sel : Option (List Name) := none) : List (String × Json) :=
+/-- what the harness observes of one relation; `sel`: `none` = no column-selecting reads,
+`some none` = `select_from(name)` with the default `columns=None`, `some (some cols)` = explicit columns -/
+def obsRel (fields : Option (List Field)) (r : Rel) (sel : Option (Option (List Name)) := none) : List (String × Json) :=
   [("tx", Json.bool r.tx.isSome), ("gz", Json.bool r.gz.isSome)] ++
   match fields with
   | none => []
@@ -109,9 +110,25 @@ def obsRel (fields : Option (List Field)) (r : Rel) (sel : Option (List Name) :=
     | none => []
     | some cols =>
       [("open", jExcept (jList cps) (openLines r)),
-       ("sel", jRaw (selectRaw fs (some cols) r)),
-       ("selcast", jCastRead (selectCast fs (some cols) r)),
-       ("selauto", jCastRead (selectAuto fs (some cols) r))]
+       ("sel", jRaw (selectRaw fs cols r)),
+       ("selcast", jCastRead (selectCast fs cols r)),
+       ("selauto", jCastRead (selectAuto fs cols r))]
+
+/-- `sel` of a case: `null`, the string `"all"` or a list of column names -/
+def ofSel (j : Json) : Except String (Option (Option (List Name))) :=
+  match j with
+  | Json.null => pure none
+  | Json.str _ => pure (some none)
+  | _ => do pure (some (some (← (← j.getArr?).toList.mapM ofCps)))
+
+def ofEnc (j : Json) (k : String) : Except String Enc :=
+  match j.getObjVal? k with
+  | .ok (Json.str "latin-1") => pure .latin1
+  | .ok (Json.str "ascii") => pure .ascii
+  | .ok (Json.str "utf-8") => pure .utf8
+  | .ok Json.null => pure .utf8
+  | .ok v => throw s!"bad encoding {v}"
+  | .error _ => pure .utf8
 
 /-- mtime of files written by `tsdb.write` during a case: later than every "old"/start
 file (small numbers), earlier than every "new" plant (see harness/c09.py) -/
@@ -119,15 +136,25 @@ def MID : Nat := 2000000000
 
 /-! history cases -/
 
-def histStep (fields : List Field) (sel : Option (List Name)) (k : Nat) (r : Rel) (op : Json) : Except String (Rel × Json) := do
+/-- what the caller's iterable sees each time it is asked for a record -/
+def jDuring (r : Rel) (s : RelT) : Json :=
+  Json.mkObj [("tx", Json.bool s.rel.tx.isSome), ("gz", Json.bool s.rel.gz.isSome),
+              ("tmp", jNat (if s.tmp.isSome then 1 else 0)), ("same", Json.bool (decide (s.rel = r)))]
+
+def histStep (enc : Enc) (fields : List Field) (sel : Option (Option (List Name))) (k : Nat) (r : Rel) (op : Json) : Except String (Rel × Json) := do
   let kind ← getStr op "k"
   match kind with
   | "write" =>
     let recs ← (← getArr op "recs").mapM (fun rj => do (← rj.getArr?).toList.mapM ofVal)
-    let q : WReq := { append := ← getBool op "append", gzip := ← getBool op "gzip", staged := stage fields recs }
-    match write MID r q with
-    | .ok r' => pure (r', Json.mkObj ([("res", Json.str "ok")] ++ obsRel (some fields) r' sel))
-    | .error e => pure (r, Json.mkObj ([("res", Json.str (errTag e))] ++ obsRel (some fields) r sel))
+    -- the effect-level model: one `encodeRec` per record, effects run from the state without temp file
+    let q : WReqE := { append := ← getBool op "append", gzip := ← getBool op "gzip", recs := recs.map (encodeRec enc fields) }
+    let (es, err) := effects r q
+    let st := runEffs MID ⟨r, none⟩ es
+    let during := ("during", jList (jDuring r) (duringStates MID r q))
+    let left := ("tmp_left", Json.bool st.tmp.isSome)
+    match err with
+    | none => pure (st.rel, Json.mkObj ([("res", Json.str "ok")] ++ obsRel (some fields) st.rel sel ++ [during, left]))
+    | some e => pure (st.rel, Json.mkObj ([("res", Json.str (errTag e))] ++ obsRel (some fields) st.rel sel ++ [during, left]))
   | "plant" =>
     let gz ← getBool op "gz"
     let lines := plantLines (← ofRawRecs op "recs")
@@ -147,11 +174,11 @@ def histStep (fields : List Field) (sel : Option (List Name)) (k : Nat) (r : Rel
     pure (r', Json.mkObj ([("res", Json.str "removed")] ++ obsRel (some fields) r' sel))
   | _ => throw s!"bad hist op {kind}"
 
-def histLoop (fields : List Field) (sel : Option (List Name)) : Nat → Rel → List Json → Except String (List Json)
+def histLoop (enc : Enc) (fields : List Field) (sel : Option (Option (List Name))) : Nat → Rel → List Json → Except String (List Json)
   | _, _, [] => pure []
   | k, r, op :: ops => do
-    let (r', o) ← histStep fields sel k r op
-    pure (o :: (← histLoop fields sel (k + 1) r' ops))
+    let (r', o) ← histStep enc fields sel k r op
+    pure (o :: (← histLoop enc fields sel (k + 1) r' ops))
 
 /-! database cases -/
 
@@ -187,11 +214,11 @@ def handle (j : Json) : Except String Json := do
     let fields ← ofFields j "fields"
     let r0 ← ofRel (← j.getObjVal? "start")
     let sel ← match j.getObjVal? "sel" with
-      | .ok Json.null => pure none
-      | .ok v => do pure (some (← (← v.getArr?).toList.mapM ofCps))
+      | .ok v => ofSel v
       | .error _ => pure none
+    let enc ← ofEnc j "enc"
     let o0 := Json.mkObj ([("res", Json.str "start")] ++ obsRel (some fields) r0 sel)
-    let os ← histLoop fields sel 0 r0 (← getArr j "ops")
+    let os ← histLoop enc fields sel 0 r0 (← getArr j "ops")
     pure (Json.arr (o0 :: os).toArray)
   | "db" =>
     let srcSchema ← ofSchema (← j.getObjVal? "src_schema")
@@ -206,20 +233,32 @@ def handle (j : Json) : Except String Json := do
     let autocast ← match j.getObjVal? "src_autocast" with
       | .ok v => v.getBool?
       | .error _ => pure false
-    let q : DbReq := { srcSchema := srcSchema, autocast := autocast, inPlace := inPlace, names := names,
-                       schema := ← ofOptSchema j "schema", gzip := ← getBool j "gzip" }
     let watch ← (← getArr j "watch").mapM ofCps
-    let tss ← match j.getObjVal? "schema" with
+    let tss0 ← match j.getObjVal? "schema" with
       | .ok Json.null => ofSSchema (← j.getObjVal? "src_schema")
       | .ok v => ofSSchema v
       | .error _ => ofSSchema (← j.getObjVal? "src_schema")
-    let (dd, e) := writeDbDir MID q tss src { files := dst }
+    -- a schema handed over as a path goes through `write_schema` + `read_schema` first
+    let viaPath := match j.getObjVal? "schema_via" with
+      | .ok (Json.str "obj") => false
+      | .ok (Json.str _) => true
+      | _ => false
+    let schemaJ ← ofOptSchema j "schema"
+    let (tss, schema) ← if viaPath && schemaJ.isSome then
+        match readSchema (writeSchema tss0) with
+        | .ok t => match t.toSchema with
+          | some sc => pure (t, some sc)
+          | none => throw "schema given as a path: datatype outside the model"
+        | .error e => throw s!"schema given as a path does not parse: {errTag e}"
+      else pure (tss0, schemaJ)
+    let q : DbReq := { srcSchema := srcSchema, autocast := autocast, inPlace := inPlace, names := names,
+                       schema := schema, gzip := ← getBool j "gzip" }
+    let enc ← ofEnc j "enc"
+    let (dd, e) := writeDbDirE enc MID q tss src { files := dst }
     let d := dd.files
     let back := reopenSchema dd
     let sels ← match j.getObjVal? "sel" with
-      | .ok v => (← v.getArr?).toList.mapM (fun x => match x with
-          | Json.null => pure (none : Option (List Name))
-          | _ => do pure (some (← (← x.getArr?).toList.mapM ofCps)))
+      | .ok v => (← v.getArr?).toList.mapM ofSel
       | .error _ => pure (watch.map (fun _ => none))
     let rels := (watch.zip sels).map (fun (n, sel) =>
       let fs : Option (List Field) := match back with
@@ -228,6 +267,22 @@ def handle (j : Json) : Except String Json := do
       Json.mkObj (obsRel fs (d n) sel))
     pure (Json.mkObj [
       ("res", Json.str (match e with | none => "ok" | some e => errTag e)),
+      ("schema", jExcept jSSchema back),
+      ("rels", Json.arr rels.toArray)])
+  | "init" =>
+    let tss ← ofSSchema (← j.getObjVal? "schema")
+    let dst ← ofFiles (← j.getObjVal? "dst_files")
+    let files ← getBool j "files"
+    let watch ← (← getArr j "watch").mapM ofCps
+    let dd := initDbDir MID files tss { files := dst }
+    let back := reopenSchema dd
+    let rels := watch.map (fun n =>
+      let fs : Option (List Field) := match back with
+        | .ok s => (s.toSchema.getD []).lookup n
+        | .error _ => none
+      Json.mkObj (obsRel fs (dd.files n) (some none)))
+    pure (Json.mkObj [
+      ("res", Json.str "ok"),
       ("schema", jExcept jSSchema back),
       ("rels", Json.arr rels.toArray)])
   | "schema_rt" =>
